@@ -1,5 +1,6 @@
 CONSTANTS
   MaxFeatures = 1
+  PairPaths <- PairPathsCore
   Plan <- PlanQuick
   Dev_StopDropsDynamic = TRUE
   Dev_ExcRebuiltFromStr = TRUE
